@@ -5,6 +5,12 @@
 #[allow(dead_code)]
 mod rng;
 use rng::*;
+#[path = "../../harness/src/progen.rs"]
+#[allow(dead_code)]
+mod progen;
+#[path = "../../harness/src/api.rs"]
+#[allow(dead_code)]
+mod api;
 use std::any::Any;
 use std::cell::RefCell;
 use std::collections::HashMap;
@@ -16,7 +22,7 @@ fn mix(n: u64, a: u64, b: u64, c: u64, d: u64, e: u64) -> u64 {
 }
 macro_rules! helper { ($name:ident, $n:expr) => { fn $name(a: u64, b: u64, c: u64, d: u64, e: u64) -> u64 { HLOG.with(|l| l.borrow_mut().push(($n, [a, b, c, d, e]))); mix($n, a, b, c, d, e) } }; }
 helper!(h0, 0); helper!(h1, 1); helper!(h2, 2); helper!(h3, 3);
-const HELPERS: [rbpf::ebpf::Helper; 4] = [h0, h1, h2, h3];
+pub const HELPERS: [rbpf::ebpf::Helper; 4] = [h0, h1, h2, h3];
 fn fnv(bytes: &[u8]) -> u64 { let mut h: u64 = 0xcbf29ce484222325; for b in bytes { h ^= *b as u64; h = h.wrapping_mul(0x100000001b3); } h }
 fn calc(_p: &[u8], pc: usize, data: &mut dyn Any) -> u16 {
     let t: &Vec<u16> = match data.downcast_ref::<Vec<u16>>() { Some(t) => t, None => data.downcast_ref::<Box<dyn Any>>().and_then(|b| b.downcast_ref::<Vec<u16>>()).unwrap() };
@@ -34,6 +40,15 @@ fn exec_mem(size: usize) -> &'static mut [u8] {
         let p = libc::mmap(std::ptr::null_mut(), size, libc::PROT_READ | libc::PROT_WRITE | libc::PROT_EXEC, libc::MAP_PRIVATE | libc::MAP_ANONYMOUS, -1, 0);
         assert!(p != libc::MAP_FAILED);
         std::slice::from_raw_parts_mut(p as *mut u8, size)
+    }
+}
+
+/// one executable region shared by the (sequential) api cases
+pub fn exec_mem_shared() -> &'static mut [u8] {
+    static mut P: *mut u8 = std::ptr::null_mut();
+    unsafe {
+        if P.is_null() { P = exec_mem(1 << 16).as_mut_ptr(); }
+        std::slice::from_raw_parts_mut(P, 1 << 16)
     }
 }
 
@@ -110,6 +125,7 @@ fn run_line(line: &str) -> String {
         "verify" if toks.len() == 2 => { let Some(p) = unhex(toks[1]) else { return "bad-op".into() };
             catch(move || match rbpf::EbpfVmMbuff::new(Some(&p)) { Ok(_) => "ok".into(), Err(_) => "err".into() }) }
         "exec" => run_exec(&toks),
+        "api" => api::run(&toks),
         _ => "bad-op".into(),
     }
 }
